@@ -1,11 +1,12 @@
 """C01, tangle layer: the first layer of the v2 engine (yui-link Path, TngComp / Tng of kh/internal/v2/tng.rs, the numeric
 bookkeeping of CobComp::connect / Cob::connect, and the vertical composition Cob::stack / Cob::id / Cob::inv / cap_off /
-part_eval / LcCob of cob.rs) inside the Coq model (Model/Tng.v, Model/TngCob.v, Model/TngStack.v, theorems
-Properties/C01Tng.v and Properties/C01Stack.v) with an exact correspondence run against the real code.
+part_eval / LcCob of cob.rs, and the tangle complex TngComplex of tng_complex.rs: append / connect / deloop / eliminate)
+inside the Coq model (Model/Tng.v, Model/TngCob.v, Model/TngStack.v, Model/TngComplex.v, theorems Properties/C01Tng.v,
+Properties/C01Stack.v and Properties/C01Cpx.v) with an exact correspondence run against the real code.
 
 Used by vlib/c01.py:   obl_part, corr_part = c01tng.run_part(ctx)
   obl_part  = C.coq_obligations("C01", [...ExtractC01Tng.vo], more_props=PROPS) restricted to the tangle files
-              (PROPS = ["C01Tng", "C01Stack"]; vlib/c01.py should pass `["C01Smith"] + c01tng.PROPS` as more_props of its own
+              (PROPS = ["C01Tng", "C01Stack", "C01Cpx"]; vlib/c01.py should pass `["C01Smith"] + c01tng.PROPS` as more_props of its own
               coq_obligations / coqchk calls so that the thorough tier runs coqchk on Properties/C01Stack.vo too)
               (keys as C.coq_obligations: ok, problems, theorems, obligations, discharged, axioms, files, build_s)
   corr_part = C.correspondence(<own Ctx "C01TNG">, "c01tng", ...) (keys as C.correspondence: ok, n, disagreements,
@@ -21,7 +22,7 @@ from . import common as C
 
 PID = "C01TNG"
 PROP = "C01Tng"
-PROPS = ["C01Tng", "C01Stack"]
+PROPS = ["C01Tng", "C01Stack", "C01Cpx"]
 EXTRACT = "Extract/ExtractC01Tng.vo"
 
 RULE = ("tangle layer (Model/Tng.v against the real yui-link Path and v2 TngComp/Tng, every component compared RAW = the stored "
@@ -61,9 +62,26 @@ RULE = ("tangle layer (Model/Tng.v against the real yui-link Path and v2 TngComp
         "terms per factor (coarsenings of the same layer, other genus / dots, coefficients -2..2) multiplied and part_eval'ed "
         "(LC / MUL / LPE / LINV), compared as sets of terms with canonically oriented keys; 1/12 malformed (a component "
         "dropped, layers swapped: not stackable, release build goes on or panics - P in both). "
+        "Tangle complex (Model/TngComplex.v against the real TngComplex<i64> driven through its public API): tc = scripts over "
+        "two complex registers: init(h, t, deg_shift, base_pt) with h, t in -2..3 (half of them 0, 0), 1/3 reduced (base point = "
+        "a label of the diagram); the crossings of a random diagram with <= 5 (quick) / 6 (thorough) crossings (table knots, "
+        "braid closures, kinks, split unions, 1/6 truncated to an open tangle; 1/8 of the crossings already resolved) are "
+        "appended one by one with TngComplex::append (= make_x + connect: connect_vertices, connect_edges with the sign "
+        "(-1)^deg, Cob::id, LcCob::connected, part_eval); in between and at the end deloop(k, r) and eliminate(k, l) steps "
+        "chosen deterministically from the CURRENT complex by the same rule on both sides (DL: the least key, sorted as "
+        "strings, whose tangle has a circle not through the base point - or any circle - and find_comp of it; EL n: the n-th "
+        "edge with is_invertible() in sorted order; DLA / ELA: until there is none) in the builder's pattern (after every "
+        "crossing), as single steps, lazily (the whole cube first, <= 4 crossings) or mixed; two complexes built separately, "
+        "partly simplified, and joined by TngComplex::connect (CO; also with different h or base points: the asserts); "
+        "malformed scripts (explicit deloop / eliminate / remove_vertex on missing keys, arcs, non-invertible edges, repeated "
+        "and degenerate crossings, set_deg_shift). After EVERY step the whole complex is printed canonically: dim, deg_shift, "
+        "base_pt, nverts, is_completely_delooped, whether validate() returns, rank(i) over h_range, and every vertex (key = "
+        "state bits / label, sorted) with its RAW tangle, its in-edges and its out-edges with all LcCob terms (coefficient, "
+        "canonically oriented cobordism with genus and dots, degree), sorted; at the end edge(k, l).eval(h, t) of every edge "
+        "(EV) and the differential of convert_edges(id).into_raw_complex() on every generator (RAW). "
         "non-trivial = some printed component has >= 3 labels; distinct = distinct case lines")
 
-MARKERS = ("FAIL", "?connected", "?partial_cmp", "?ctor", "?dots", "BAD-", "P-CASE", "circ=P", "?mul")
+MARKERS = ("FAIL", "?connected", "?partial_cmp", "?ctor", "?dots", "BAD-", "P-CASE", "circ=P", "?mul", "DRIVER-EXN")
 
 
 def nontrivial(case, impl):
@@ -83,15 +101,17 @@ def equal(case, impl, model):
         return False
     if kind == "kc" and "circ=ok" not in impl:
         return False
+    if kind == "tc" and ("val=0" in impl or "dd=0" in impl or "dd=P" in impl):
+        return False          # a well-formed script: validate() returns and d d = 0 on every completely delooped complex
     return True
 
 
 def _own_files(files):
-    return [f for f in files if re.search(r"(Model/Tng(Cob|Stack)?\.v|Proofs/TngP[A-Za-z0-9]*\.v|Properties/C01(Tng|Stack)\.v|Extract/ExtractC01Tng\.v)$", f)]
+    return [f for f in files if re.search(r"(Model/Tng(Cob|Stack|Complex)?\.v|Proofs/TngP[A-Za-z0-9]*\.v|Properties/C01(Tng|Stack|Cpx)\.v|Extract/ExtractC01Tng\.v)$", f)]
 
 
 def obligations():
-    """Properties/C01Tng.vo, Properties/C01Stack.vo + extraction, audited like every property file (theorem prefix C01_)"""
+    """Properties/C01Tng.vo, Properties/C01Stack.vo, Properties/C01Cpx.vo + extraction, audited like every property file (theorem prefix C01_)"""
     gen = os.path.join(C.OCAML, "gen", "c01tng_model.ml")
     vo = os.path.join(C.COQ, "Extract", "ExtractC01Tng.vo")
     if not os.path.exists(gen) and os.path.exists(vo):
@@ -128,7 +148,7 @@ def replay_part(ctx, cases):
     return correspondence(ctx.tier, ctx.seed, replay_cases=cases)
 
 
-KINDS = ("pc", "kc", "kp", "kt", "cn", "wf", "mf", "cb", "cx", "sk")
+KINDS = ("pc", "kc", "kp", "kt", "cn", "wf", "mf", "cb", "cx", "sk", "tc", "tm")
 
 
 def merge(obl, corr, obl_part, corr_part):
